@@ -327,8 +327,13 @@ def omit_prefix(vrs, prefix):
 
 
 def _omit_prefix(s, prefix):
-    if s.startswith(prefix):
-        return s.replace(prefix, '', 1)
+    """Return `s` without `prefix`, if `s` is a mangled hidden variable.
+
+    Only names of the form `prefix + '_...'` are unmangled, because
+    `add_prefix` prepends `prefix` only to names that start with `_`.
+    """
+    if s.startswith(prefix + '_'):
+        return s[len(prefix):]
     return s
 
 
